@@ -5,7 +5,8 @@ from .. import proofgate, composer
 from .. import jubjub as J
 from .c12 import rederive_points
 
-THEOREMS = ["C13_torsion_emits", "C13_torsion_sound", "C13_torsion_point_on_curve", "C13_torsion_complete", "C13_torsion_in_system"]
+THEOREMS = ["C13_torsion_emits", "C13_torsion_sound", "C13_torsion_point_on_curve", "C13_torsion_complete", "C13_torsion_in_system",
+            "C13_torsion_multiple_of_8", "C13_honest_witness", "C13_subgroup_given_curve_order_partial"]
 FIRST = 6
 EIGHT_INV = 0x01cfb69d4ca675f520cce7602026876014cd0412799902105a12e1cbdadee597
 
@@ -142,9 +143,9 @@ def run(ck):
                      {"failing_input_found": False, "correspondence": "L3 snapshot / error kinds of the point entry points vs Composer/PointComponents.v", "program": progs[name], "diff": d, "theorems_no_longer_tied": THEOREMS})
     return ck.finish(level="proof",
         rule="coordinate pairs: subgroup points [8]R and the identity, each of the 7 non-trivial torsion points and the 7 cosets P+T (orders 2, 4, 8), off-curve pairs incl. (0,0) and both doubling poles; for each: assert_torsion_free_point with the honest auxiliary point, and the gate seam with prover-chosen auxiliary points (8^-1 P, its torsion translates, identity, P, random curve point, off-curve, (0,0), pole-inducing) plus a forged last doubling; append_constant_point / component_mul_generator / append_point / append_public_point on Z=1 and Z=5 representations; Z=0 and inconsistent T1*T2 representations on every entry point (checked build, catch_unwind). Verdicts: proved evaluator on the real rows; expectation by construction of the inputs; error kinds and layouts compared with the Gallina model",
-        assumptions=["PrimeR, NonSquareD", "[8]E = prime-order subgroup (group structure of JubJub: cofactor 8) is NOT mechanised: the theorem states satisfiable => on_curve Q and point = [8]Q; that this characterises the subgroup is checked on all 8 cosets, not proved",
+        assumptions=["PrimeR, NonSquareD: class arguments of the statements, both proved closed in Props/Hypotheses.v", "the ORDER of the JubJub group (8*r_j, point counting) is NOT mechanised: proved are satisfiable => on_curve Q and point = [8]Q (an integer multiple in the proved group law), completeness on the prime-order subgroup (C13_honest_witness) and, with the order as explicit premise, [r_j]point = O; exclusion of the 7 non-trivial cosets is checked on all torsion points and cosets on every run, not proved",
                      "completeness (honest 8^-1 P satisfies the rows) decided by evaluation"],
-        checker_cmd=proofgate.CHECKER_CMD, trusted_base=proofgate.TRUSTED + ["Hypothesis NonSquareD (Jubjub d is a quadratic non-residue) in the statements of C12-C14"])
+        checker_cmd=proofgate.CHECKER_CMD, trusted_base=proofgate.TRUSTED)
 
 def replay(ck, path):
     d = json.load(open(path)); print(json.dumps(d["replay"], indent=1)[:3000]); return 0
